@@ -26,8 +26,7 @@ def predicate(key):
     return deco
 
 
-def load_known():
-    path = os.path.join(HERE, 'known_findings.json')
+def _read(path):
     if not os.path.exists(path):
         return []
     with open(path) as f:
@@ -35,11 +34,34 @@ def load_known():
     return data.get('findings', data) if isinstance(data, dict) else data
 
 
+def load_known():
+    out = _read(os.path.join(HERE, 'known_findings.json'))
+    # development aid only (never set by registered commands): extra proposals
+    extra = os.environ.get('RV_KNOWN_EXTRA')
+    if extra:
+        out = out + _read(extra)
+    return out
+
+
+def predicates_for(pid):
+    """Predicates live next to the monitors: rv.props.<id>.FINDING_PREDICATES."""
+    import importlib
+
+    preds = dict(PREDICATES)
+    try:
+        mod = importlib.import_module(f'rv.props.{pid.lower()}')
+        preds.update(getattr(mod, 'FINDING_PREDICATES', {}))
+    except Exception:  # noqa: BLE001
+        pass
+    return preds
+
+
 def match(pid, v, listed):
+    preds = predicates_for(pid)
     for e in listed:
         if e.get('property') != pid or e.get('status') != 'known':
             continue
-        pred = PREDICATES.get(e['key'])
+        pred = preds.get(e['key'])
         if pred is None:
             continue
         try:
